@@ -77,7 +77,7 @@ fn generate_multirule(seed: u64, run: u64, thorough: bool) -> Scenario {
         let mut rr = Rng::stream(seed, run, &format!("RULE{}", r));
         let mut dr = Rng::stream(seed, run, &format!("DOCS{}", r));
         let y = match (&first, twins) {
-            (Some(f), true) => gen::twin_rule(f, if or.chance(1, 2) { 0 } else { or.below(4) }),
+            (Some(f), true) => gen::twin_rule(f, if or.chance(1, 2) { 0 } else { or.below(6) }),
             _ => gen::gen_rule(&mut rr, &knobs),
         };
         for d in gen::docs_for(&mut dr, &y, &knobs, 6) {
